@@ -191,3 +191,58 @@ Fixpoint phantom_free_entry (e : entry) : bool :=
 
 Definition phantom_free (e : oentry) : bool :=
   match e with None => true | Some x => phantom_free_entry x end.
+
+(* ------------------------------------------------------------------ *)
+(* The reported form of a conflict                                     *)
+(* ------------------------------------------------------------------ *)
+
+(* Conflicts reach the user (session state, Manager.List) in slim form:
+   change.go: Change.slim, conflict.go: Conflict.Slim - every entry is
+   replaced by its slim copy (contents dropped), nothing else changes. *)
+Definition slim_change (ch : change) : change :=
+  {| cpath := cpath ch; cold := oslim (cold ch); cnew := oslim (cnew ch) |}.
+
+Definition slim_conflict (c : conflict) : conflict :=
+  {| root := root c;
+     alpha_changes := map slim_change (alpha_changes c);
+     beta_changes := map slim_change (beta_changes c) |}.
+
+(* s is an acceptable reported form of the conflict c: same root, the same
+   change paths on each endpoint (so still at least one change on each
+   endpoint whenever c has), and itself well formed *)
+Definition reported_ok (a b : oentry) (c s : conflict) : Prop :=
+  root s = root c
+  /\ map cpath (alpha_changes s) = map cpath (alpha_changes c)
+  /\ map cpath (beta_changes s) = map cpath (beta_changes c)
+  /\ conflict_wf a b s.
+
+Fixpoint paths_eqb (x y : list path) : bool :=
+  match x, y with
+  | [], [] => true
+  | p :: x', q :: y' => path_eqb p q && paths_eqb x' y'
+  | _, _ => false
+  end.
+
+Definition reported_okb (a b : oentry) (c s : conflict) : bool :=
+  path_eqb (root s) (root c)
+  && paths_eqb (map cpath (alpha_changes s)) (map cpath (alpha_changes c))
+  && paths_eqb (map cpath (beta_changes s)) (map cpath (beta_changes c))
+  && conflict_wfb a b s.
+
+(* the reported conflicts, in the order of the plan's conflicts *)
+Fixpoint all_reported_okb (a b : oentry) (cs ss : list conflict) : bool :=
+  match cs, ss with
+  | [], [] => true
+  | c :: cs', s :: ss' => reported_okb a b c s && all_reported_okb a b cs' ss'
+  | _, _ => false
+  end.
+
+Definition c06_reported_prop (a b : oentry) (pl : plan) (ss : list conflict) : Prop :=
+  Forall2 (reported_ok a b) (conflicts pl) ss.
+
+(* a case with the reported conflicts: ((mode, ancestor, alpha, beta, plan),
+   [Slim() of every conflict of the plan, in order]) *)
+Definition check_c06_reported
+  (c : (mode * oentry * oentry * oentry * plan) * list conflict) : bool :=
+  let '((m, anc, a, b, pl), ss) := c in
+  check_c06_plan a b pl && all_reported_okb a b (conflicts pl) ss.
